@@ -252,6 +252,17 @@ def _gen_query(rng: random.Random, files: list[str]) -> str:
                 terms.append('-' + _recase(rng, rng.choice(words)))
     else:
         terms = [_gen_term(rng, files, words) for _ in range(n)]
+    if rng.random() < 0.22:
+        # the SAME text in terms of different kinds ("*mix -mix", "live -LIVE", "ing *ing", a term twice): each term is
+        # judged on its own — whatever is remembered about a term's text must not leak from one kind to another
+        for _ in range(rng.choice([1, 1, 2])):
+            t = rng.choice(terms)
+            core = t.lstrip('*-') if t[:1] in '*-' else t
+            if not core:
+                continue
+            prefixes = [x for x in ('', '*', '-') if x + core != t] + [t[:1] if t[:1] in '*-' else '']
+            echo = rng.choice(prefixes) + (core if rng.random() < 0.6 else _recase(rng, core))
+            terms.insert(rng.randrange(len(terms) + 1), echo)
     sep = rng.choice([' ', ' ', ' ', '  ', '\t'])
     q = sep.join(terms)
     if rng.random() < 0.1:
@@ -406,6 +417,21 @@ def _gen_case(rng: random.Random) -> dict:
             if disk or files:
                 ops.append(['query', _gen_query(rng, disk or files)])
 
+    unreadable = rng.random() < 0.3      # entries the scan cannot stat: dangling / self-referencing symbolic links
+    links: list[str] = []
+
+    def link_ops(k):
+        for _ in range(k):
+            d = rng.choice(dirs)
+            # named like the real files (their words), so that an index that takes such an entry in shows it in results
+            name = _gen_name(rng, rng.choice([1, 2])) + '.' + rng.choice(EXTS)
+            f = name if d == '.' else d + '/' + name
+            if f not in disk and f not in dirs and f not in links and f not in files:
+                links.append(f)
+                ops.append(['link', f, rng.choice([0, 0, 1])])
+
+    if unreadable:
+        link_ops(rng.choice([1, 2, 3]))
     budget = [8 - nshare - 1]          # histories stay within 8 share operations (one kept for the final scan)
     for i in range(nshare):
         r = rng.random()
@@ -434,6 +460,13 @@ def _gen_case(rng: random.Random) -> dict:
         ops.append(['stats'])
         queries(rng.choice([0, 1, 2, 3]))
         # the disk moves on
+        if unreadable and rng.random() < 0.35:
+            if links and rng.random() < 0.4:
+                f = rng.choice(links)
+                links.remove(f)
+                ops.append(['unlink', f])
+            else:
+                link_ops(1)
         for _ in range(rng.choice([0, 0, 0, 1, 2])):
             r2 = rng.random()
             if r2 < 0.4 and disk:
@@ -446,7 +479,7 @@ def _gen_case(rng: random.Random) -> dict:
                 d = rng.choice(dirs)
                 name = _gen_name(rng, rng.choice([1, 2, 3])) + '.' + rng.choice(EXTS)
                 f = name if d == '.' else d + '/' + name
-                if f not in disk and f not in dirs:
+                if f not in disk and f not in dirs and f not in links:
                     disk.append(f)
                     ops.append(['touch', f])
     if rng.random() < 0.7 and nshare < 8:
@@ -572,6 +605,21 @@ def _run_impl(case: dict) -> list:
                 except OSError:
                     pass
                 obs.append(None)
+            elif kind == 'link':
+                # an entry of the directory that cannot be stat'ed: a symbolic link whose target is gone (op[2] == 0) or
+                # a link that points at itself (ELOOP, op[2] == 1) — os.walk lists it among the files, getmtime raises
+                lp = ap(op[1])
+                os.makedirs(os.path.dirname(lp), exist_ok=True)
+                if not os.path.lexists(lp):
+                    os.symlink(lp + '.gone' if op[2] == 0 else os.path.basename(lp), lp)
+                obs.append(None)
+            elif kind == 'unlink':
+                try:
+                    if os.path.islink(ap(op[1])):
+                        os.remove(ap(op[1]))
+                except OSError:
+                    pass
+                obs.append(None)
             elif kind in ('add', 'remove', 'update', 'scan', 'scanall'):
                 try:
                     if kind == 'add':
@@ -692,7 +740,7 @@ def _model_lines(case: dict) -> tuple[list[str], list[int]]:
             if op[1] in disk:
                 disk.remove(op[1])
             where.append(-1)
-        elif k == 'mod':
+        elif k in ('mod', 'link', 'unlink'):       # an entry that cannot be stat'ed is not a file the scan can index
             where.append(-1)
         elif k in ('add', 'remove', 'update'):
             where.append(len(lines))
@@ -856,7 +904,7 @@ def _monitor(case: dict, impl: list) -> list[Violation]:
             disk.add(op[1])
         elif k == 'rm':
             disk.discard(op[1])
-        elif k == 'mod':
+        elif k in ('mod', 'link', 'unlink'):
             pass
         elif o is None:
             break
@@ -952,7 +1000,16 @@ W_SIBLING = {'cap': 100, 'ops': [['touch', 'm/CD1/one.mp3'], ['touch', 'm/CD10/t
                                  ['touch', 'm/CD1 (bonus)/x/live.mp3'], ['touch', 'm/CD/zero.mp3'],
                                  ['add', 'm'], ['add', 'm/CD1'], ['scanall'], ['stats'],
                                  ['query', 'ten'], ['query', 'bonus live'], ['query', 'mp3']]}
-WITNESSES = [W_WILDCARD, W_REMOVED, W_VANISHED, W_MOVED, W_SIBLING]
+# entries that cannot be stat'ed (a link whose target is gone, a link onto itself) are skipped, the rest of the scan counts
+W_UNREADABLE = {'cap': 100, 'ops': [['touch', 'n/keep a.mp3'], ['link', 'n/gone b.mp3', 0], ['link', 'n/sub/loop c.mp3', 1],
+                                    ['add', 'n'], ['scan', 'n'], ['stats'], ['query', 'keep'], ['query', 'gone'],
+                                    ['touch', 'n/new d.mp3'], ['rm', 'n/keep a.mp3'], ['scanall'], ['stats'],
+                                    ['query', 'keep'], ['query', 'new'], ['query', 'mp3']]}
+# the same text as a wildcard term and as an exclude term: each term is judged on its own
+W_SAMETEXT = {'cap': 100, 'ops': [['touch', 'm/remix one.mp3'], ['touch', 'm/mix two.mp3'], ['touch', 'm/remix mix.mp3'],
+                                  ['add', 'm'], ['scan', 'm'], ['query', '*mix -mix'], ['query', '-mix *mix'],
+                                  ['query', 'mix *mix'], ['query', 'remix -REMIX'], ['query', '*mix *mix']]}
+WITNESSES = [W_WILDCARD, W_REMOVED, W_VANISHED, W_MOVED, W_SIBLING, W_UNREADABLE, W_SAMETEXT]
 
 
 class C07(Property):
@@ -964,7 +1021,7 @@ class C07(Property):
             'histories of 1..8 add/remove/update/scan/scan-all operations (nested shared directories, unknown '
             'paths, stale handles) interleaved with files appearing / changing / vanishing; 1..4-term queries built '
             'from the words present (whole, substring, shared suffix with *, slices spanning punctuation, -exclusions, '
-            'absent words, junk terms), max_results in 1..100; ~13 % chains of 3-4 nested shares, ~14 % nested shares beside directories whose names extend the shared name as a string (CD1 / CD10 / CD1 (bonus) / Album [Deluxe], both directions, same level and one level deeper; such names also appear in ~30 % of the general trees); all from VERIF_SEED. A case is non-trivial when its '
+            'absent words, junk terms; in 22 % of the queries the same text again as a term of another kind or twice), max_results in 1..100; 30 % of the general histories with directory entries that cannot be stat\'ed (dangling and self-referencing symbolic links named like the files, appearing and disappearing between scans); ~13 % chains of 3-4 nested shares, ~14 % nested shares beside directories whose names extend the shared name as a string (CD1 / CD10 / CD1 (bonus) / Album [Deluxe], both directions, same level and one level deeper; such names also appear in ~30 % of the general trees); all from VERIF_SEED. A case is non-trivial when its '
             'history has >= 2 share operations and some query returned a non-empty proper subset of the indexed '
             'files; distinct = distinct canonical case')
     assumptions = [
@@ -1039,6 +1096,9 @@ class C07(Property):
                     for t in op[1].split():
                         res.count('term:' + ('wild' if t[0] == '*' else 'excl' if t[0] == '-' else 'incl')
                                   + ('+punct' if any(not ch.isalnum() for ch in t[1:]) else ''))
+                    cores = [(t[0] if t[0] in '*-' else '', t.lstrip('*-').lower()) for t in op[1].split()]
+                    if any(a[1] and a[1] == b[1] and a[0] != b[0] for a in cores for b in cores):
+                        res.count('query:same-text-in-two-kinds')
             exc = bool(io and isinstance(io[0], dict) and 'EXC' in io[0])
             if not exc:
                 nontriv = False
